@@ -14,3 +14,9 @@ STD_BOXED_SLICE = r"""
 pub assume_specification<T, A: core::alloc::Allocator> [Vec::<T, A>::into_boxed_slice] (v: Vec<T, A>) -> (r: Box<[T], A>)   // A1
     ensures r@ == v@;
 """
+
+STD_IS_NONE_OR = r"""
+pub assume_specification<T, F: FnOnce(T) -> bool> [Option::<T>::is_none_or] (o: Option<T>, f: F) -> (r: bool)     // A1
+    requires o.is_some() ==> f.requires((o.unwrap(),)),
+    ensures o.is_none() ==> r, o.is_some() ==> f.ensures((o.unwrap(),), r);
+"""
